@@ -6,7 +6,8 @@
           `stat` stands for the whole stat tuple (ctime, mtime, dev, ino, mode, size) of the
           inode; every modification takes a fresh value from `clock` (the property's assumption).
    index: the persistent hash cache = sequence of [name, stat, digest] records
-          ("" = no cache file; a cache file always holds at least one record, utils.py 480-493).
+          (<<>> = no cache file; a cache file always holds at least one record, utils.py 480-493).
+          Directories have no records: only files and links go through FileIndex.check.
 
    Path universe: top level "a", "a.b", "a0"; below "a": "a/x", "a/y".  In byte order
    "a" < "a.b" < "a/x" < "a/y" < "a0" ('.'=46 < '/'=47 < '0'=48): the directory "a" must be
@@ -15,7 +16,8 @@
 
    M layer: the cached hash is modelled step-wise after FileIndex.open/__readEntry/__match/
    __writeEntry/check/close (file offsets are counted in records: offset 4 = 0 records).
-   P layer: CacheTransparent, IndexSorted, IndexNeverLies at the end.
+   P layer: CacheTransparent, IndexSorted, IndexNeverLies (+ OutSorted) at the end.
+   Other INITs: InitMerge (all pairs old index x tree, one hash), InitTrees (tree universe).
    hist is the observation variable for behaviour generation (hidden by VIEW otherwise).  *)
 EXTENDS Naturals, Sequences, FiniteSets, TLC, Json, SequencesExt
 
